@@ -61,6 +61,9 @@ def ssum (ws : List String) : Option String := do
 
 def step (line : String) : String :=
   match words line with
+  | ["tcut", t, d] => (match parseRat? t, parseRat? d with
+      | some t, some d => toString (tcut_to_dkmax t d)
+      | _, _ => "bad-op")
   | "inflargs" :: rest => (inflArgs rest).getD "bad-op"
   | "exponent" :: rest => (exponents rest).getD "bad-op"
   | "ssum" :: rest => (ssum rest).getD "bad-op"
